@@ -667,6 +667,9 @@ class Lock(Obj):
     def cm_exit(self, ex, st, node, outcome):
         st = st.fork()
         self.set(st, 'held', self.held(st) - 1)
+        hook = getattr(ex.unit, 'on_release', None)
+        if hook:
+            hook(ex, st, self, node)
         return [('ok', st, False)]
 
     def m_acquire(self, ex, st, args, kwargs, node):
@@ -1050,6 +1053,10 @@ class SharedMap(Obj):
             else:
                 outs.append(ex.raise_new(s2, 'KeyError'))
         return outs
+
+    def delitem(self, ex, st, idx, node):
+        outs = self.m_pop(ex, st, [idx], {}, node)
+        return [(k, s, None if k == 'ok' else v) for k, s, v in outs]
 
     def m_get(self, ex, st, args, kwargs, node):
         st = st.fork()
